@@ -15,6 +15,7 @@ import (
 // continued from an earlier run grows to its old size plus the maximum before it rotates.
 func c07PositionIsFileSize(c *Ctx) {
 	const rule = "position-is-file-size"
+	c.Explanation += " The size counter of the rotating file starts at the end offset of the file taken over."
 	p := c.P
 	rfT := p.Type(fileRel, "rotateFile")
 	if !c.Anchor(rfT != nil, rule, "file.rotateFile") {
@@ -41,6 +42,56 @@ func c07PositionIsFileSize(c *Ctx) {
 		}
 		return true
 	}
+	// the size counter by role: the field of rotateFile that some method advances by adding to its own value
+	posField := -1
+	for _, fn := range p.FuncsIn(fileRel) {
+		for _, b := range fn.Blocks {
+			for _, in := range b.Instrs {
+				st, ok := in.(*ssa.Store)
+				if !ok {
+					continue
+				}
+				fa, ok := st.Addr.(*ssa.FieldAddr)
+				if !ok || NamedOf(fa.X.Type()) != rfT {
+					continue
+				}
+				if bo, isB := st.Val.(*ssa.BinOp); isB && bo.Op == token.ADD {
+					if ld, isL := bo.X.(*ssa.UnOp); isL && ld.Op == token.MUL {
+						if fa2, isFA := ld.X.(*ssa.FieldAddr); isFA && fa2.Field == fa.Field && NamedOf(fa2.X.Type()) == rfT {
+							posField = fa.Field
+						}
+					}
+				}
+			}
+		}
+	}
+	if !c.Anchor(posField >= 0, rule, "the size counter of rotateFile (a field advanced by what was written)") {
+		return
+	}
+	var endOffsetAt func(v ssa.Value, d int) bool
+	endOffsetAt = func(v ssa.Value, d int) bool {
+		if endOffset(v) {
+			return true
+		}
+		// handed to a constructor helper: judged at its call sites
+		par, ok := Unwrap(v).(*ssa.Parameter)
+		if !ok || d > 2 {
+			return false
+		}
+		idx, sites := paramIdx(par), 0
+		for _, g := range p.FuncsIn(fileRel) {
+			for _, call := range Calls(g) {
+				if call.Common().StaticCallee() != par.Parent() || idx < 0 || idx >= len(call.Common().Args) {
+					continue
+				}
+				sites++
+				if !endOffsetAt(call.Common().Args[idx], d+1) {
+					return false
+				}
+			}
+		}
+		return sites > 0
+	}
 	n := 0
 	for _, fn := range p.FuncsIn(fileRel) {
 		constructs := false
@@ -58,11 +109,11 @@ func c07PositionIsFileSize(c *Ctx) {
 					continue
 				}
 				fa, ok := st.Addr.(*ssa.FieldAddr)
-				if !ok || NamedOf(fa.X.Type()) != rfT || fieldNameOf(fa) != "pos" {
+				if !ok || NamedOf(fa.X.Type()) != rfT || fa.Field != posField {
 					continue
 				}
 				n++
-				key := shortFn(fn) + " sets rotateFile.pos"
+				key := shortFn(fn) + " sets the size counter of rotateFile"
 				if bo, isB := st.Val.(*ssa.BinOp); isB && bo.Op == token.ADD {
 					c.Ok(rule, key+" (advance)", p.InstrPos(st), "advanced by a count")
 					continue
@@ -71,7 +122,7 @@ func c07PositionIsFileSize(c *Ctx) {
 					c.Ok(rule, key+" (new file)", p.InstrPos(st), "zero for the file this function opens in place of the renamed or missing one")
 					continue
 				}
-				c.Check(endOffset(st.Val), rule, key, p.InstrPos(st), "the end offset of the file taken over", "the size the rotation decision works with starts at `"+RenderN(st.Val, 3)+"`, which is not the end offset of the file taken over (Seek(0, io.SeekEnd) or Stat().Size()): a file continued from an earlier run is counted from zero and grows to its old size plus the maximum before it rotates")
+				c.Check(endOffsetAt(st.Val, 0), rule, key, p.InstrPos(st), "the end offset of the file taken over", "the size the rotation decision works with starts at `"+RenderN(st.Val, 3)+"`, which is not the end offset of the file taken over (Seek(0, io.SeekEnd) or Stat().Size()): a file continued from an earlier run is counted from zero and grows to its old size plus the maximum before it rotates")
 			}
 		}
 	}
